@@ -43,6 +43,11 @@ Caps(i) == HasCapture(St, i)
 \* every image is well formed and ends within its capacity
 ImagesWellFormed == (Ok => /\ (Len(R.waves) > 0 => \A x \in Lines : WellFormed(W(x)) /\ Len(W(x)) <= R.caps[x + 1])
                            /\ \A i \in 1..NS : Caps(i) => WellFormed(PortW(i)) /\ Len(PortW(i)) <= R.pcaps[i]) \/ Fail("C03", "ImagesWellFormed")
+\* what is captured at a port or state element is the complete waveform of the line at its pin 0
+PortIsLine == (Ok /\ Len(R.waves) > 0 => \A i \in 1..NS : Caps(i) => PortW(i) = W(NodeOf(St, SNodes(St)[i]).ins[1])) \/ Fail(R.pid, "PortIsLine")
+\* ... and the window scanned at capture has the capacity of that line, so the terminator of every waveform is in reach
+PortWindowCoversLine == (Ok /\ Len(R.caps) > 0 => \A i \in 1..NS : Caps(i) => R.pcaps[i] = R.caps[NodeOf(St, SNodes(St)[i]).ins[1] + 1])
+                        \/ Fail(R.pid, "PortWindowCoversLine")
 \* ---------------- C03 ----------------
 VInit == Eval(St, 2, [i \in 1..NS |-> InitVal(InW(i))])
 VFinal == Eval(St, 2, [i \in 1..NS |-> FinalVal(InW(i))])
@@ -105,8 +110,10 @@ CaptureFaithful == (Ok /\ R.has.c13 => \A i \in 1..NS : (Caps(i) /\ WellFormed(P
 OvlClearMeansExact == (Ok /\ R.has.big => \A i \in 1..NS : (Caps(i) /\ SV(i)[6] = 0) => PortW(i) = R.big.port[i][p]) \/ Fail("C13", "OvlClearMeansExact")
 BigHasNoOverflow == (Ok /\ R.has.big => \A i \in 1..NS : Caps(i) => ~Overflowed(R.big.port[i][p]))
                     \/ (PrintT(<<"FAIL", "MACHINERY", tid, p, "BigHasNoOverflow">>) /\ FALSE)
-Accs == {R.actrl[x + 1][1] : x \in Lines} \ {-1}
+\* with stripped forks the branch lines are not evaluated: they produce no waveform of their own
+Evaluated(x) == ~(R.strip /\ NodeOf(St, St.lines[x + 1].drv).kind = FORK /\ St.lines[x + 1].drv \notin SSet(St))
+Accs == {R.actrl[x + 1][1] : x \in {y \in Lines : Evaluated(y)}} \ {-1}
 Weighted(x) == R.actrl[x + 1][2] * NRise(W(x)) + R.actrl[x + 1][3] * NFall(W(x))
 CountsMatch == (Ok /\ R.has.abuf /\ Len(R.waves) > 0 => \A a \in Accs :
-                  R.abuf[a + 1][p] = FoldLeft(LAMBDA acc, x : acc + (IF R.actrl[x + 1][1] = a THEN Weighted(x) ELSE 0), 0, [i \in 1..NL |-> i - 1])) \/ Fail("C13", "CountsMatch")
+                  R.abuf[a + 1][p] = FoldLeft(LAMBDA acc, x : acc + (IF R.actrl[x + 1][1] = a /\ Evaluated(x) THEN Weighted(x) ELSE 0), 0, [i \in 1..NL |-> i - 1])) \/ Fail("C13", "CountsMatch")
 =============================================================================
